@@ -154,6 +154,25 @@ impl<'tcx> Dumper<'tcx> {
             let kind = tcx.def_kind(did);
             match kind {
                 DefKind::Fn | DefKind::AssocFn | DefKind::Closure => {}
+                DefKind::Static { .. } | DefKind::Const { .. } | DefKind::AssocConst { .. } => {
+                    // data tables: HIR of the initialiser only
+                    let sp = tcx.def_span(did);
+                    let (file, l0, _) = self.loc(sp);
+                    if file.starts_with("src/") || file.contains("/src/") && !file.contains("/out/") {
+                        let body_hir = tcx.hir_body_owned_by(ldid);
+                        let tr = tcx.typeck(ldid);
+                        let h = self.expr(body_hir.value, tr);
+                        let name = self.path(did);
+                        self.emit(J::obj(vec![
+                            ("k", J::s("static")),
+                            ("id", J::s(&name)),
+                            ("file", J::s(&file)),
+                            ("line", J::n(l0)),
+                            ("hir", h),
+                        ]));
+                    }
+                    continue;
+                }
                 _ => continue,
             }
             let sp = tcx.def_span(did);
